@@ -93,3 +93,44 @@ def run_cauchy(c):
                 q_xcp=float(q_model(x, g, B, xcp)), q_ref=float(q_model(x, g, B, ref)),
                 feasible=bool(np.all(xcp >= l) and np.all(xcp <= u)),
                 c_proj=None if proj is None else proj.tolist())
+
+
+def ref_subspace(x, g, l, u, xc, B):
+    n = x.size
+    free = [i for i in range(n) if xc[i] != l[i] and xc[i] != u[i]]
+    if not free:
+        return xc.copy(), free, 1.0
+    r = g + B @ (xc - x)
+    dN = -np.linalg.solve(B[np.ix_(free, free)], r[free])
+    alpha = 1.0
+    for k, i in enumerate(free):
+        if dN[k] > 0:
+            alpha = min(alpha, (u[i] - xc[i]) / dN[k])
+        elif dN[k] < 0:
+            alpha = min(alpha, (l[i] - xc[i]) / dN[k])
+    xbar = xc.copy()
+    xbar[free] = xc[free] + alpha * dN
+    return xbar, free, alpha
+
+
+@register("subspace")
+def run_subspace(c):
+    from lbfgsb.cauchy import get_cauchy_point
+    from lbfgsb.subspacemin import get_freev, subspace_minimization
+    n = c["n"]
+    mats, _, _ = _mats(n, c["S"], c["Y"])
+    x, g, l, u = (np.array(c[k], dtype=float) for k in ("x", "g", "l", "u"))
+    B, theta = dense_B(n, c["S"], c["Y"])
+    with np.errstate(all="ignore"):
+        if c["mode"] == "pipeline":
+            xcp, cc = get_cauchy_point(x.copy(), g.copy(), l, u, mats, 1, -1, None)
+        else:
+            xcp = np.array(c["xc"], dtype=float)
+            cc = mats.W.T @ (xcp - x) if c["S"] else np.zeros(1)
+        free_vars, Z, A = get_freev(xcp, l, u, 1, None, -1, None)
+        xbar = subspace_minimization(x, xcp.copy(), free_vars, Z, A, cc, g, l, u, mats)
+    ref, free, alpha = ref_subspace(x, g, l, u, xcp, B)
+    return dict(x_cp=xcp.tolist(), xbar=np.asarray(xbar).tolist(), ref=ref.tolist(), free=[int(i) for i in free],
+                alpha=float(alpha), q_xbar=float(q_model(x, g, B, np.asarray(xbar))), q_xcp=float(q_model(x, g, B, xcp)),
+                gd=float(g.dot(np.asarray(xbar) - x)),
+                in_box=bool(np.all(np.asarray(xbar) >= l) and np.all(np.asarray(xbar) <= u)))
